@@ -237,6 +237,13 @@ def _run_one(check, case, ctx):
 	if labels is None:
 		labels = {}
 	envs = getattr(check, 'ENV_VARIANTS', DEFAULT_ENV_VARIANTS)
+	if envs and labels.get('expects_rejection') and getattr(ctx, 'rej_budget', 0) > 0:
+		# cases whose expected outcome is a REFUSAL (invalid k-mer, incomplete database, foreign file, parameter mismatch, bad index):
+		# the first few per worker are run again with assertions disabled - validation must not live in an assert statement
+		ctx.rej_budget -= 1
+		extra = _run_one(check, {'kind': '__env__', 'env': {'PYTHONOPTIMIZE': '1'}, 'inner': case}, ctx)
+		labels = dict(labels)
+		labels['classes'] = list(labels.get('classes', ())) + ['refusal_case_also_with_python_-O']
 	pick = _env_pick(case, ctx) if envs else None
 	if pick is not None:
 		ctx.env_budget -= 1
@@ -323,6 +330,7 @@ def worker_main(args):
 		# environment re-runs: only for generated cases; about 3x as many candidates as the per-worker allowance
 		ctx.env_budget = getattr(check, 'ENV_CASES_PER_WORKER', ENV_CASES_PER_WORKER).get(tier, 0)
 		ctx.env_mod = max(1, n_mine // (3 * ctx.env_budget)) if ctx.env_budget else None
+		ctx.rej_budget = {'quick': 2, 'thorough': 25}.get(tier, 0)
 		rnd = 0
 		remaining = n_mine
 		while strat is not None and remaining > 0 and len(violations) < MAX_BUCKETS and time.time() < t_end:
